@@ -133,9 +133,13 @@ type Case struct {
 	Struct      string // structural layout: ok shared | neg-missing neg-arity neg-ambiguous neg-returns neg-orphan neg-results0 neg-results2
 	Extra       string `json:",omitempty"` // a second use of x under another sugar (opt plus star list listopt) in a rule of its own
 	ExtraBefore bool   `json:",omitempty"` // that rule is declared before the start rule
-	Detail      string `json:",omitempty"`
-	Lox         string `json:",omitempty"`
-	Go          string `json:",omitempty"`
+	// Beside: a further Go file in the package directory that is not part of the package proper:
+	// ext-test-last / ext-test-first (external test package PKG_test in zz_test.go / a_test.go),
+	// int-test-last (in-package test file), ignored-last (//go:build ignore, package main, zzgen.go),
+	Beside string `json:",omitempty"`
+	Detail string `json:",omitempty"`
+	Lox    string `json:",omitempty"`
+	Go     string `json:",omitempty"`
 }
 
 func (c *Case) typ() typ {
@@ -231,6 +235,26 @@ func (c *Case) extra() (term, tt string, mids [][]int, ns []int) {
 		return "@list(x, SEP)?", "[]" + t.Type, [][]int{{}, {tC, tSEP, tC, tSEP, tC}}, []int{0, 3}
 	}
 	return
+}
+
+var besideKinds = []string{"", "", "", "", "ext-test-last", "ext-test-first", "int-test-last", "ignored-last", "ignored-first"}
+
+// besideFile returns name and text of the extra file of the case ("" if none). None of them
+// changes what the package is: test files and files excluded by build constraints are not part of it.
+func (c *Case) besideFile() (string, string) {
+	switch c.Beside {
+	case "ext-test-last":
+		return "zz_test.go", "package PKGNAME_test\n\nimport \"testing\"\n\nfunc TestNothing(t *testing.T) {}\n"
+	case "ext-test-first":
+		return "a_test.go", "package PKGNAME_test\n\nimport \"testing\"\n\nfunc TestNothing(t *testing.T) {}\n"
+	case "int-test-last":
+		return "zz_test.go", "package PKGNAME\n\nimport \"testing\"\n\nfunc TestNothing(t *testing.T) {}\n"
+	case "ignored-last":
+		return "zzgen.go", "//go:build ignore\n\npackage main\n\nfunc main() {}\n"
+	case "ignored-first":
+		return "agen.go", "//go:build ignore\n\npackage main\n\nfunc main() {}\n"
+	}
+	return "", ""
 }
 
 var extraKinds = []string{"", "", "", "opt", "plus", "star", "list", "listopt"}
@@ -595,6 +619,7 @@ type runResult struct {
 
 func eval(run *ev.Run, cases []*Case, count bool) ([]verdict, error) {
 	rs := make([]*rendered, len(cases))
+	besides := map[int][2]string{}
 	var files []map[string]string
 	for i, c := range cases {
 		r, ok := c.render()
@@ -603,9 +628,15 @@ func eval(run *ev.Run, cases []*Case, count bool) ([]verdict, error) {
 		}
 		rs[i] = r
 		c.Lox, c.Go = r.lox, r.gofile
+		if n, t := c.besideFile(); n != "" {
+			besides[i] = [2]string{n, t}
+		}
 		files = append(files, map[string]string{"g.lox": r.lox, "user.go": r.gofile,
 			"../helper/PKGNAME/h.go":               "package PKGNAME\n\nimport \"verifscratch/helper/PKGNAME/internal/node\"\n\ntype NodeH struct{ V int }\n\ntype ShadowH struct{ V int }\n\ntype AliasInt = node.Node\n\nfunc NewAliasInt(v int) AliasInt { return node.Node{V: v} }\n\ntype hidden struct{ V int }\n\ntype AliasHid = hidden\n\nfunc NewAliasHid(v int) AliasHid { return hidden{V: v} }\n",
 			"../helper/PKGNAME/internal/node/n.go": "package node\n\ntype Node struct{ V int }\n"})
+	}
+	for i, bf := range besides {
+		files[i][bf[0]] = bf[1]
 	}
 	b, err := forge.GenerateOnly(files, false, false) // the real `go list`: the Go side is the subject
 	if err != nil {
@@ -630,6 +661,9 @@ func eval(run *ev.Run, cases []*Case, count bool) ([]verdict, error) {
 			run.Class("struct:" + c.Struct)
 			if c.Extra != "" {
 				run.Class("second-use:" + c.Skel + "+" + c.Extra)
+			}
+			if c.Beside != "" {
+				run.Class("beside:" + c.Beside)
 			}
 			if r.positive {
 				run.Class("expected:accept")
@@ -774,6 +808,7 @@ func genCase(rt *rapid.T) *Case {
 			Extra:  extraKinds[rapid.IntRange(0, len(extraKinds)-1).Draw(rt, "extra")],
 		}
 		c.ExtraBefore = c.Extra != "" && rapid.Bool().Draw(rt, "extraBefore")
+		c.Beside = besideKinds[rapid.IntRange(0, len(besideKinds)-1).Draw(rt, "beside")]
 		if c.Skel == "tokstar" {
 			c.T = "tok"
 			c.Extra, c.ExtraBefore = "", false
@@ -789,7 +824,7 @@ const knownStarF = "C06-starf-without-discard"
 func TestC06(t *testing.T) {
 	run := ev.Start("C06")
 	defer run.Finish(t)
-	run.Rule = "grammar skeletons (sequence, x?, x+, x*, @list, @list?, x*!, an @error alternative, C* over tokens) x a type universe for the rule's result (int, string, pointer, named struct, unnamed and named slice, map, func, chan, interface, any, generic instance, imported time.Duration / *bytes.Buffer / *strings.Builder, a type imported from a package whose NAME equals the parser package's name (with and without a local type of the same name), aliases (local, of an imported type, re-exporting a type of another package's internal package, re-exporting an unexported type), array, unnamed struct, Token) x how the receiving parameter is typed (identical, any, implemented interface, assignable-but-not-identical named type or <-chan; negative: other named type with equal underlying type, value vs pointer, unimplemented interface) x an optional second use of the same element rule under another sugar (x?, x+, x*, @list, @list?) in a rule declared before or after the start rule (helper rules are shared by name) x structural layout (one method, method shared by two productions; negative: missing method, wrong arity, two matching methods, differing return types, orphan method, 0 or 2 results); the legality of every case is known by construction (no call to go/types); " +
+	run.Rule = "grammar skeletons (sequence, x?, x+, x*, @list, @list?, x*!, an @error alternative, C* over tokens) x a type universe for the rule's result (int, string, pointer, named struct, unnamed and named slice, map, func, chan, interface, any, generic instance, imported time.Duration / *bytes.Buffer / *strings.Builder, a type imported from a package whose NAME equals the parser package's name (with and without a local type of the same name), aliases (local, of an imported type, re-exporting a type of another package's internal package, re-exporting an unexported type), array, unnamed struct, Token) x how the receiving parameter is typed (identical, any, implemented interface, assignable-but-not-identical named type or <-chan; negative: other named type with equal underlying type, value vs pointer, unimplemented interface) x an optional second use of the same element rule under another sugar (x?, x+, x*, @list, @list?) in a rule declared before or after the start rule (helper rules are shared by name) x an optional further Go file beside the package's own (external or in-package test file, build-ignored package main, sorting before or after the other files) x structural layout (one method, method shared by two productions; negative: missing method, wrong arity, two matching methods, differing return types, orphan method, 0 or 2 results); the legality of every case is known by construction (no call to go/types); " +
 		"oracle: (1) lox succeeds exactly on the legal cases and a failure's diagnostic names the production's line or the method; (2) on success the package compiles with the generated files (real go list + go build); (3) at run time every action parameter equals the value the producing action returned (reflect.DeepEqual; identity for pointers, channels, funcs; zero value for an absent x?), for 2-3 sentences per skeleton; " +
 		"non-trivial = negative case or parameter type not identical to the term's type; distinct by (skeleton, type, parameter kind, layout)"
 	run.Assumptions = []string{"Go assignability as in the language specification", "for interface-typed parameters an absent optional may arrive as untyped nil or as the boxed zero value"}
